@@ -9,6 +9,7 @@ open Chess.Props.C17
 #print axioms every_line_bounded
 #print axioms cli_book_phase_never_asserts
 #print axioms cli_book_phase_unwrap
+#print axioms builder_round_trip
 #print axioms Chess.Props.C17.step_decreases
 #print axioms Chess.Props.C17.visit_fuel
 #print axioms Chess.Props.C17.step_oob
